@@ -16,7 +16,7 @@ if [ -z "$SKIP_TESTS" ]; then
   (cd "$W" && LOKY_MAX_CPU_COUNT=2 PYTHONHASHSEED=0 PYTHONPATH="$W/src:/verif/shims" timeout 2400 /venv/bin/python -m pytest -q -p no:cacheprovider --timeout=600 -n 8 tests 2>&1 | grep -E "passed|failed|error" | tail -1)
   git -C "$W" checkout -- tests 2>/dev/null
 fi
-cd /verif
+cd ${VERIF_DIR:-/verif}
 for c in $CHECKS; do
   out=$(VK_REPO_SRC="$W/src" ./check $c quick 2>&1); rc=$?
   echo "check $c on patched tree: rc=$rc  $(echo "$out" | grep -c '^VIOLATION') violation lines"
